@@ -36,6 +36,7 @@ type Val struct {
 	P   *Ptr
 	Tup []Val
 	Clo *Closure
+	Arr string // spec functions: contents of the backing array a slice-typed parameter was passed with
 }
 
 func (v Val) isTuple() bool { return v.Tup != nil }
